@@ -6,8 +6,13 @@
    Pure storage facts: no law on the arithmetic [A] is used; formatting and parsing are abstract,
    with the single hypothesis that parsing a formatted value gives the value back. *)
 From Coq Require Import List Arith Lia Bool.
-From OV Require Import Base.Panic Base.Arith Model.Vector Model.Matrix Model.Mesh
-  Proofs.MeshBase Proofs.MeshStore.
+From OV Require Import Base.Panic.
+From OV Require Import Base.Arith.
+From OV Require Import Model.Vector.
+From OV Require Import Model.Matrix.
+From OV Require Import Model.Mesh.
+From OV Require Import Proofs.MeshBase.
+From OV Require Import Proofs.MeshStore.
 Import ListNotations.
 
 (* ------------------------------------------------------------------ loops *)
